@@ -360,6 +360,14 @@ def guard_rules(ctx, facts, rep, rule="C08-GUARD"):
                 fs = dominating_facts(up, exu, bi)
                 g = any(x[0] == "Le" and ".compressed_size" in tokens(x[1]) and x[2][0] in ("named", "const") and x[2][2] == bthr for x in fs)
                 casts.append(g)
+    # ... or no cast at all: the 32-bit value is the payload of a checked conversion (`u32::try_from(compressed_size)` with the
+    # failure turned into the error) -- the conversion is the 4 GiB check
+    for bi, t in up.calls():
+        if callee_matches(t, r"WriteBytesExt::write_u32$") and len(t["args"]) > 1:
+            e = norm(exu.operand(t["args"][1], (bi, None)))
+            if ".compressed_size" in tokens(e) and not any(x[0] == "cast" for x in walk(e)):
+                conv = [x for x in walk(e) if x[0] == "call" and re.search(r"TryFrom(<u64>>)?::try_from$|TryInto(<u32>>)?::try_into$", x[1])]
+                casts.append(bool(conv) and all(".compressed_size" in tokens(x) for x in conv))
     good = bool(casts) and all(casts)
     ok &= rep.check(good, rule, "patch:compressed-size-guard", where(up, up.span), "`compressed_size as u32` only after compressed_size <= 0xFFFFFFFF",
                     "the back-patch narrows compressed_size to 32 bits without the 4 GiB check")
